@@ -230,7 +230,10 @@ ATTR_VALUES = ['x', '', 'INF', '-1', '0', '7', '99999', '9' * 5000, '0x1G',
                '0x10', 'TRUE ', 'true', 'false', 'FALSE', 'maybe', 'uint8',
                'sint64', 'real32', 'string', 'boolean', 'datetime',
                'reference', 'char16', 'uint7', 'instance', 'object', 'obj',
-               '1.5', '1e400', 'NaN', ' 5 ', 'é', 'numeric', 'integer']
+               '1.5', '1e400', 'NaN', ' 5 ', 'é', 'numeric', 'integer',
+               # digits for str.isdigit()/isdecimal() that int() may reject
+               '\u00b2', '1\u00b9', '\u2460', '\uff11\uff12', '\u0663',
+               '\u0969', '1_0', '+1', '-0', '٣.٥', '{0}', '%s']
 TEXT_VALUES = ['', ' ', 'x', 'TRUE', 'false', 'INF', '-INF', 'NaN', '256',
                '-129', '65536', '-1', '1_0', '0x', '0xFF', '1e400', '1e-400',
                '9' * 5000, ' 12 ', '12abc', '20180911124613.128000+000',
@@ -239,7 +242,9 @@ TEXT_VALUES = ['', ' ', 'x', 'TRUE', 'false', 'INF', '-INF', 'NaN', '256',
                '<INSTANCE CLASSNAME="C"><PROPERTY NAME="p" TYPE="uint8">'
                '<VALUE>x</VALUE></PROPERTY></INSTANCE>',
                '<CLASS NAME="C"><FOO/></CLASS>', '<a>', '&', 'ab', 'aé',
-               '\U0001F600', '1.5', '.5', '5.', '+', '--1', 'None']
+               '\U0001F600', '1.5', '.5', '5.', '+', '--1', 'None',
+               '\u00b2', '1\u00b9', '\u2460', '\uff11\uff12', '\u0663',
+               '\u0969', '\u00bd', '{0}', '%s']
 ATTR_NAMES = ['NAME', 'TYPE', 'PARAMTYPE', 'CODE', 'DESCRIPTION',
               'ARRAYSIZE', 'CLASSNAME', 'VALUETYPE', 'PROPAGATED',
               'CLASSORIGIN', 'EmbeddedObject', 'EMBEDDEDOBJECT', 'ISARRAY',
